@@ -176,6 +176,18 @@ Definition comp (m : metric) (P : nat) (s : st) : option Qc := comp_table m (cla
 Definition run_entry (m : metric) (parts : list Z) (batches : list (list row)) : option Qc :=
   comp m (length parts) (feed_batches parts batches).
 
+(* any history of update() / compute() calls on one entry: the code model is Model/Accum.v's [run] with this accumulator;
+   the spec says that each compute() returns the statistic of the rows fed before it *)
+Definition run_history (m : metric) (parts : list Z) (h : list (op row)) : list (option Qc) :=
+  snd (run st row (option Qc) st_zero st_plus (contrib parts) (comp m (length parts)) st_zero h).
+
+Fixpoint spec_history (m : metric) (parts : list Z) (seen : list row) (h : list (op row)) : list (option Qc) :=
+  match h with
+  | [] => []
+  | Update b :: t => spec_history m parts (seen ++ b) t
+  | Compute :: t => spec_metric m (groups parts seen) :: spec_history m parts seen t
+  end.
+
 (* ---------------------------------------------------------------- automatic class set (partitions=None), repaired rule (150a6f0):
    ls = [0, 9, 64, 256]; for r in ls: if maxdata < r: break; partitions = arange(r).
    maxdata > 255 and mindata < 0 are refused (ValueError) before. *)
@@ -205,7 +217,9 @@ Record part_case := {
   pc_parts : option (list Z);              (* partitions argument; None = automatic *)
   pc_batches : list (list trace);          (* the update() calls, in order *)
   pc_obs_parts : list Z;                   (* .partitions after the updates ([] when the first update raised) *)
-  pc_obs : option (list (list fval))       (* compute() as words x samples; None = the first update raised ValueError *)
+  pc_obs : option (list (nat * list (list fval)))
+    (* every compute() of the history, in order: (number of update() calls made before it, result as words x samples);
+       None = the first update raised ValueError *)
 }.
 
 Definition first_batch_data (c : part_case) : list Z :=
@@ -259,8 +273,9 @@ Definition obs_ok (p : prec) (m : metric) (gs : list (list Qc)) (v : fval) : boo
            end
   end.
 
-Definition entry_check (c : part_case) (parts : list Z) (w s : nat) (v : fval) : bool :=
-  let bs := map (entry_rows w s) (pc_batches c) in
+(* one entry of the compute() made after the first [k] updates: the model side is the statistic of that prefix *)
+Definition entry_check (c : part_case) (parts : list Z) (k w s : nat) (v : fval) : bool :=
+  let bs := map (entry_rows w s) (firstn k (pc_batches c)) in
   let gs := groups (nodup Z.eq_dec parts) (concat bs) in
   obs_ok (pc_prec c) (pc_metric c) gs v
   && oqc_eqb (run_entry (pc_metric c) parts bs) (spec_metric (pc_metric c) gs).
@@ -268,30 +283,39 @@ Definition entry_check (c : part_case) (parts : list Z) (w s : nat) (v : fval) :
 Definition rect_ok (c : part_case) (W S : nat) : bool :=
   forallb (fun b => forallb (fun r => Nat.eqb (length (fst r)) S && Nat.eqb (length (snd r)) W) b) (pc_batches c).
 
+Definition table_check (c : part_case) (parts : list Z) (W S : nat) (kt : nat * list (list fval)) : bool :=
+  let '(k, tbl) := kt in
+  Nat.leb 1 k && Nat.leb k (length (pc_batches c)) && Nat.eqb (length tbl) W
+  && forallb2 (fun w ow => Nat.eqb (length ow) S && forallb2 (fun s v => entry_check c parts k w s v) (seq 0 S) ow)
+              (seq 0 W) tbl.
+
+(* EVERY compute() of the history (after each update, repeated at the end) must be the statistic of the rows fed so far *)
 Definition part_check (c : part_case) : bool :=
   match resolve_parts c, pc_obs c with
   | None, None => true
   | Some parts, Some obs =>
-      let W := length obs in
-      let S := match obs with o :: _ => length o | [] => O end in
+      let W := match pc_batches c with (r :: _) :: _ => length (snd r) | _ => O end in
+      let S := match pc_batches c with (r :: _) :: _ => length (fst r) | _ => O end in
       zlist_eqb parts (pc_obs_parts c)
       && negb (Nat.eqb W 0) && negb (Nat.eqb S 0) && rect_ok c W S
-      && forallb2 (fun w ow => Nat.eqb (length ow) S && forallb2 (fun s v => entry_check c parts w s v) (seq 0 S) ow)
-                  (seq 0 W) obs
+      && negb (Nat.eqb (length obs) 0)
+      && forallb (table_check c parts W S) obs
   | _, _ => false
   end.
 
-(* what the spec says for every (word, sample) of a case — printed into replay files *)
-Definition part_expected (c : part_case) : option (list Z * list (list (option Q))) :=
-  match resolve_parts c with
-  | None => None
-  | Some parts =>
+(* what the spec says for every compute() of a case: (updates before it, words x samples) — printed into replay files *)
+Definition part_expected (c : part_case) : option (list Z * list (nat * list (list (option Q)))) :=
+  match resolve_parts c, pc_obs c with
+  | Some parts, Some obs =>
       let W := match pc_batches c with (r :: _) :: _ => length (snd r) | _ => O end in
       let S := match pc_batches c with (r :: _) :: _ => length (fst r) | _ => O end in
       Some (parts,
-            map (fun w => map (fun s =>
-                   match spec_metric (pc_metric c) (groups (nodup Z.eq_dec parts) (concat (map (entry_rows w s) (pc_batches c)))) with
-                   | Some q => Some (this q) | None => None end) (seq 0 S)) (seq 0 W))
+            map (fun kt : nat * list (list fval) => let k := fst kt in
+              (k, map (fun w => map (fun s =>
+                   match spec_metric (pc_metric c)
+                           (groups (nodup Z.eq_dec parts) (concat (map (entry_rows w s) (firstn k (pc_batches c))))) with
+                   | Some q => Some (this q) | None => None end) (seq 0 S)) (seq 0 W))) obs)
+  | _, _ => None
   end.
 
 (* ---------------------------------------------------------------- validation of the hand-written SPEC against reference
